@@ -42,6 +42,7 @@ def h_dest(ctx, N, mode):
     alphabet = ["MD", "FD", "EOF", "EOFC", "TICK", "CANCEL"] + (["ACKFIN"] if mode == ACK else [])
     md_ind = False
     finished_seen = False
+    eof_seen = False
     pending_fin_ind = None  # codes of the last Transaction-Finished indication, to match the Finished PDU
     for i in range(N):
         was_idle = sc.rig.idle
@@ -65,6 +66,7 @@ def h_dest(ctx, N, mode):
         if was_idle and not sc.rig.idle or (was_idle and "metadata_recv" in kinds):
             md_ind = False
             finished_seen = False
+            eof_seen = False
         for e in o.ind:
             if e[0] == "metadata_recv":
                 md_ind = True
@@ -103,7 +105,9 @@ def h_dest(ctx, N, mode):
                      sand(e[3] == S, e[4] == sc.src_name, e[5] == sc.dst_name, e[2] == sc.ids.src),
                      lambda: {"sig": "Metadata-Recv parameters differ from the PDU"})
         eofs = [e for e in o.ind if e[0] == "eof_recv"]
-        if ev[0] == "EOF" and o.exc is None and any(pdu_kind(p) == "ACK" for p in o.pdus):
+        if ev[0] == "EOF" and o.exc is None and any(pdu_kind(p) == "ACK" for p in o.pdus) and not eof_seen:
+            # the first EOF of the transaction; a repeated EOF is acknowledged again but is the same event
+            eof_seen = True
             ctx.covered("eof_accepted")
             ctx.prop("enabled_eof_indication_delivered", simplies(sw["sw_eof_recv"], len(eofs) == 1),
                      lambda: {"sig": "EOF acknowledged without EOF-Recv"})
